@@ -686,7 +686,7 @@ def run(ctx, prop='C01'):
         if ft is not None and case['family'] == 'fft':
             import hcipy
             for line, chk, stream in correspondence_requests(case, ft):
-                checks.append((len(lines), 1, chk, case, stream))
+                checks.append((len(lines), 0, chk, case, stream))
                 lines.append(line)
             if int(np.prod(ft.internal_shape)) <= (400000 if thorough else 60000):
                 q, fov, shift = np.array(case['q']), np.array(case['fov']), np.array(case['shift'])
@@ -701,7 +701,7 @@ def run(ctx, prop='C01'):
                         lines += ls
     out = ctx.model(lines)
     for start, cnt, chk, case, stream in checks:
-        detail = chk(out[start]) if cnt == 1 else chk(out[start:start + cnt])
+        detail = chk(out[start]) if cnt == 0 else chk(out[start:start + cnt])
         ctx.traces_validated += 1
         if detail == 'boundary':
             ctx.boundary_skipped += 1
